@@ -191,7 +191,7 @@ func abortPart(t *testing.T, c *report.Check) {
 		if c.Thorough() {
 			bound = sc.bound[1]
 		}
-		r := explore.ExploreProcs(explore.ProcConfig{Scenario: sc.name, Bound: bound, Procs: 16, Budget: 50, MaxExecs: int64(c.Pick(20000, 200000))})
+		r := explore.ExploreProcs(explore.ProcConfig{Scenario: sc.name, Bound: bound, Procs: 16, Budget: 50, MaxExecs: int64(c.Pick(20000, 30000))})
 		c.AddExplore(fmt.Sprintf("abort schedules: %s (delay bound %d)", sc.name, bound), r, map[string]any{"part": "abort", "scenario": sc.name, "bound": bound})
 	}
 }
